@@ -504,24 +504,23 @@ theorem deleteMem_opened (s : State) (keys : List Key) (x : Key) :
   induction keys generalizing s with
   | nil => simp [deleteMem]
   | cons k rest ih =>
-    simp only [deleteMem]
-    split
-    · exact ih s
-    · rename_i id hk
-      have := ih { s with pending := upd s.pending k none, closed := upd s.closed k false,
-                           opened := openedDel s.opened (s.objs id).outgoing }
-      cases this with
+    cases hp : s.pending k with
+    | none => rw [deleteMem_none s k rest hp]; exact ih s
+    | some id =>
+      rw [deleteMem_some s k rest id hp]
+      have hobjs : (delStep s k id).objs = s.objs := rfl
+      cases ih (delStep s k id) with
       | inl h =>
         simp only [h]
         cases ho : (s.objs id).outgoing with
-        | none => left; simp [openedDel]
+        | none => left; simp [delStep, openedDel, ho]
         | some o =>
-          simp only [openedDel, upd_apply]
           by_cases e : x = o
           · right; exact ⟨_, List.mem_cons_self, by simp [ho, e]⟩
-          · left; simp [e]
+          · left; simp [delStep, openedDel, ho, upd_apply, e]
       | inr h =>
         obtain ⟨r, hr, ho⟩ := h
+        rw [hobjs] at ho
         right; exact ⟨r, List.mem_cons_of_mem _ hr, ho⟩
 
 theorem deleteRollback_opened (g : Key → Option ObjId) (objs : ObjId → Circuit) (s : State)
